@@ -353,8 +353,9 @@ func (e *endpoint) Write(b []byte) (int, error) {
 	}
 	c, n := e.c, e.c.n
 	q := e.out
+	inReset := e.in.isReset() // (never two stream locks at once: the peer's Write takes them in the other order)
 	q.mu.Lock()
-	if q.rstSent || e.in.isReset() {
+	if q.rstSent || inReset {
 		q.mu.Unlock()
 		return 0, e.opErr("write", os.NewSyscallError("write", syscall.ECONNRESET))
 	}
